@@ -35,6 +35,10 @@ def make_coin(activation=4, prefetch=4):
     return SimCoin
 
 
+CHUNK_OVERRIDE = None       # a case may shrink OnDiskBlock.chunk_size (block files are then
+#                             streamed in many chunks, as blocks above 25 MB are in production)
+
+
 def reset_globals():
     '''State that would otherwise leak between cases.'''
     OnDiskBlock.blocks = {}
@@ -42,7 +46,7 @@ def reset_globals():
     OnDiskBlock.log_block = False
     OnDiskBlock.daemon = None
     OnDiskBlock.state = None
-    OnDiskBlock.chunk_size = 25_000_000
+    OnDiskBlock.chunk_size = CHUNK_OVERRIDE or 25_000_000
     daemon_mod.Daemon.id_counter = itertools.count()
     random.seed(12345)
     try:
